@@ -1,7 +1,7 @@
 import Bptk.Core.C16
 /-! Line-protocol driver for the C16 instance-isolation model:  `lake env lean --run Drive/C16.lean < lines`
 
-`cfg <0|1>`                 instancesShareNothing
+`cfg <0|1> <0|1>`           instancesShareNothing restoreOnlyAddressed
 `run <k> <ad> <ops>`        k initial instances, ad = 1: external state adapter; ops: comma list of `<id><code>` (or `-`);
                             codes: b | b<int> | s | s<int> | r | e | k | x | t | c (create) | R | R<int> (/run) | q (/equations) | a (/agents)
 reply: one token per op: inv nodata started step:<t> res:<n> ended alive deleted swept created ran names noagents saveerr none
@@ -50,7 +50,8 @@ def respStr (vals : Bool) : Option Resp → String
 
 def stepLine (c : Cfg) (line : String) : Cfg × String :=
   match line.trimAscii.toString.splitOn " " with
-  | ["cfg", v] => if v == "1" then (⟨true⟩, "ok") else if v == "0" then (⟨false⟩, "ok") else (c, "bad-op")
+  | ["cfg", v, w] =>
+      if (v == "1" || v == "0") && (w == "1" || w == "0") then (⟨v == "1", w == "1"⟩, "ok") else (c, "bad-op")
   | [cmd, k, ad, ops] =>
       if (cmd != "run" && cmd != "val") || (ad != "0" && ad != "1") then (c, "bad-op") else
       match k.toNat?, (if ops == "-" then some [] else (ops.splitOn ",").mapM parseOp) with
@@ -66,4 +67,4 @@ partial def loop (h : IO.FS.Stream) (c : Cfg) : IO Unit := do
   IO.println out
   loop h c'
 
-def main : IO Unit := do loop (← IO.getStdin) ⟨true⟩
+def main : IO Unit := do loop (← IO.getStdin) ⟨true, true⟩
